@@ -34,7 +34,12 @@ from explorerscript.ssb_converting.compiler.compile_handlers.abstract import (
 )
 from explorerscript.ssb_converting.compiler.compile_handlers.atoms.integer_like import IntegerLikeCompileHandler
 from explorerscript.ssb_converting.compiler.utils import CompilerCtx
-from explorerscript.ssb_converting.ssb_data_types import SsbRoutineInfo, SsbRoutineType, SsbOpParam
+from explorerscript.ssb_converting.ssb_data_types import (
+    SsbRoutineInfo,
+    SsbRoutineType,
+    SsbOpParam,
+    SsbOpParamFixedPoint,
+)
 from explorerscript.util import exps_int
 
 
@@ -50,6 +55,8 @@ class ForTargetDefCompileHandler(AbstractFuncdefCompileHandler[ExplorerScriptPar
         linked_to = -1
         linked_to_name = None
         integer_like = self._linked_to_target
+        if isinstance(integer_like, SsbOpParamFixedPoint):
+            raise SsbCompilerError("The target of a routine must be an integer or a constant.")
         try:
             linked_to = exps_int(integer_like)  # type: ignore
         except ValueError:
